@@ -53,7 +53,7 @@ def schema_for(minor):
     return _SCHEMA_CACHE[minor]
 
 
-def validate_nb(nb):
+def validate_nb(nb, check_ids=True):
     """Return list of jsonschema errors of `nb` against the schema of the version it
     declares (pure jsonschema on a JSON round-tripped copy; nbformat.validate is not
     used because it mutates and relaxes)."""
@@ -69,7 +69,7 @@ def validate_nb(nb):
     errs = list(schema_for(minor).iter_errors(plain))
     # ids must be unique (nbformat checks this outside the schema)
     ids = [c.get("id") for c in plain.get("cells", []) if isinstance(c, dict) and "id" in c]
-    if len(ids) != len(set(map(json.dumps, ids))):
+    if check_ids and len(ids) != len(set(map(json.dumps, ids))):
         errs.append(_Err("duplicate-id", "duplicate cell ids"))
     return errs
 
@@ -84,21 +84,49 @@ class _Err:
         self.instance = None
 
 
+def _star(path):
+    return "/" + "/".join("*" if isinstance(p, int) else str(p) for p in path)
+
+
+def leaf_errors(err):
+    """For oneOf failures descend into the branch selected by cell_type / output_type
+    (the branch without an enum error on that discriminator); return leaf errors."""
+    ctx = list(getattr(err, "context", None) or ())
+    if err.validator != "oneOf" or not ctx:
+        return [err]
+    branches = {}
+    for e in ctx:
+        branches.setdefault(e.relative_schema_path[0], []).append(e)
+    good = []
+    for idx, errs in branches.items():
+        wrong = any(e.validator == "enum" and list(e.relative_path)[-1:] in (["cell_type"], ["output_type"]) for e in errs)
+        if not wrong:
+            good.extend(errs)
+    if not good:
+        return [err]
+    out = []
+    for e in good:
+        out.extend(leaf_errors(e))
+    return out
+
+
 def error_key(err, doc=None):
-    """Mechanism key for a schema error: starred instance path, validator keyword,
-    tail of schema path, and for oneOf failures the best-matching branch's leaf
-    errors.  The message is never part of the key."""
-    def star(path):
-        return "/" + "/".join("*" if isinstance(p, int) else str(p) for p in path)
-    if getattr(err, "context", None):
-        # choose the branch with the deepest/fewest errors: relevance heuristic
-        import jsonschema
-        best = jsonschema.exceptions.best_match([err])
-        if best is not None and best is not err:
-            return "%s:%s:%s" % (star(best.absolute_path), best.validator,
-                                 "/".join(str(x) for x in list(best.absolute_schema_path)[-3:]))
-    return "%s:%s:%s" % (star(err.absolute_path), err.validator,
-                         "/".join(str(x) for x in list(err.absolute_schema_path)[-3:]))
+    """Mechanism key for a schema error: starred instance path, validator keyword, tail of
+    the schema path of the leaf error in the matching oneOf branch, plus the offending
+    property name for additionalProperties / required.  The message text is never used."""
+    leaves = leaf_errors(err)
+    keys = []
+    for e in leaves[:3]:
+        extra = ""
+        if e.validator == "additionalProperties" and isinstance(e.instance, dict):
+            allowed = set((e.schema.get("properties") or {}).keys())
+            extra = ":" + ",".join(sorted(k for k in e.instance if k not in allowed))
+        elif e.validator == "required" and isinstance(e.instance, dict):
+            extra = ":" + ",".join(sorted(k for k in e.validator_value if k not in e.instance))
+        elif e.validator == "type":
+            extra = ":want=%s,got=%s" % (e.validator_value, type(e.instance).__name__)
+        keys.append("%s:%s%s" % (_star(e.absolute_path), e.validator, extra))
+    return "|".join(sorted(set(keys)))
 
 
 def b64(rng, nbytes):
